@@ -3,5 +3,5 @@ CONSTANTS MaxFaces = 2 MaxVal = 3 Emit = TRUE
   WidthPoints = {255, 256, 65535, 65536, 2097151, 2097152}
 INIT Init
 NEXT Next
-INVARIANT Guards EmitRows
+INVARIANT Guards EmitRows HugeRows
 CHECK_DEADLOCK FALSE
